@@ -102,6 +102,10 @@ def gen_case(rng, nw, rich=True):
     readers = [("r1", rng.choice([1, 2, 3]), False), ("r2", rng.choice([1, 2, 0]), rng.chance(1, 2))]
     memo = {}
     for w in writes:
+        if w["op"] == "txn" and rng.chance(1, 2):
+            # the same transaction through POST /transactions or built in JavaScript (NewTransaction / ExecuteTransaction)
+            js = rng.chance(1, 2)
+            w = {"op": "jstxn" if js else "htxn", "sets": [{"ds": s_["ds"], "ents": (sc.js_safe if js else sc.no_null)(s_["ents"])} for s_ in w["sets"]]}
         if w["op"] == "batch" and rng.chance(1, 5):
             w = {"op": "hbatch", "ds": w["ds"], "ents": sc.no_null(w["ents"] + sc.gen_batch(rng, pool, memo, w["ds"], rich) * rng.choice([1, 4]))}
         ops.append(w)
@@ -109,6 +113,9 @@ def gen_case(rng, nw, rich=True):
             d = sc.DS_NAMES[rng.below(nds)]
             ops.append({"op": "hchanges", "ds": d, "reader": "hx", "limit": rng.choice([1, 2, 0]), "latest": rng.chance(1, 3)})
             ops.append({"op": "hchanges", "ds": d, "reader": "hy", "reverse": True, "limit": rng.choice([1, 2, 0])})
+        if rng.chance(1, 5):
+            # the JS binding GetDatasetChanges (latest-only), carrying its token
+            ops.append({"op": "jschanges", "ds": sc.DS_NAMES[rng.below(nds)], "reader": "jr", "limit": rng.choice([1, 2, 0])})
         if rng.chance(1, 6):
             ops.append(sc.gen_race(rng, pool, memo, sc.DS_NAMES[rng.below(nds)], "rx", rich))
         for name, lim, latest in readers:
@@ -183,9 +190,14 @@ def classify(c, o):
 
 def tags(c, o):
     t = ["datasets=%d" % len(c["datasets"])]
-    nw = sum(1 for op in c["ops"] if op["op"] in ("batch", "txn"))
+    nw = sum(1 for op in c["ops"] if op["op"] in ("batch", "txn", "hbatch", "htxn", "jstxn", "race"))
     t.append("writes=%d" % nw)
-    if any(op["op"] == "txn" for op in c["ops"]):
+    if any(op["op"] in ("txn", "htxn", "jstxn") for op in c["ops"]):
         t.append("has-txn")
+    for k in ("hbatch", "htxn", "jstxn", "jschanges", "hchanges", "hquery", "jsfind", "race"):
+        if any(op["op"] == k for op in c["ops"]):
+            t.append("via-" + k)
+    if any(op.get("reject") for op in c["ops"]):
+        t.append("refused-batch")
     t.append("outcome=" + o.get("outcome", "?"))
     return t
